@@ -10,7 +10,7 @@ KERNEL = [os.path.join(VERIF, "sim")]
 
 
 def build(flavour="plain"):
-    h = file_hash([os.path.join(REPO, "sbepp/src"), os.path.join(REPO, "sbeppc/src"), SRC, os.path.join(VERIF, "fsim", "corpus")] + KERNEL, flavour)
+    h = file_hash([os.path.join(REPO, "sbepp/src"), os.path.join(REPO, "sbeppc/src"), SRC, os.path.join(VERIF, "fsim", "corpus")] + KERNEL + [os.path.abspath(__file__)], flavour)
     san = ["-fsanitize=address,undefined", "-fno-sanitize-recover=undefined", "-fno-omit-frame-pointer"] if flavour == "asan" else []
     opt = ["-O1", "-g"]
 
